@@ -18,6 +18,7 @@ HERE = os.path.dirname(os.path.abspath(__file__))
 
 
 ModelledError = core.ModelledError
+PROXY_NAMES = ('SArr', 'SInt', 'SReal', 'SBool', 'SNan', 'SymList', 'FrameDict', 'SRange', 'SNum', 'Sym')
 
 
 class Unit:
@@ -218,6 +219,9 @@ def explore(unit, repo):
                 where = _innermost_file(tb)
                 if where.startswith(HERE) and not isinstance(ex, ModelledError):
                     raise Unsupported('engine error %s: %s at %s' % (type(ex).__name__, ex, traceback.format_exc(limit=-3)))
+                if isinstance(ex, (AttributeError, TypeError)) and not isinstance(ex, ModelledError) and any(pn in str(ex) for pn in PROXY_NAMES):
+                    # a method / operator / keyword the symbolic proxy does not model: a limit of the engine, not an exception of the code
+                    raise Unsupported('proxy limit %s: %s' % (type(ex).__name__, ex))
                 res.exc_paths += 1
                 ended = 'raise'
                 handler = None
